@@ -360,6 +360,12 @@ def gen_cases(ctx):
                     yield dict(set='served', integration=integration, base=base, layout=layout, kind=kind)
                     if layout == 'two-specs':
                         yield dict(set='served', integration=integration, base=base, layout=layout, kind=kind, first=False)
+    # two threads generating from one specification object: methods with different component prefixes / error lists / tags
+    K = 8
+    for kind in ('openapi-3.1', 'openrpc'):
+        for atoms in ((7, 2), (7, 5)):
+            for k in range(K):
+                yield dict(set='threads', kind=kind, atoms=list(atoms), budget=ctx.pick(1, 2), shard=(k, K, 1))
     xs = list(range(len(CORE), len(COREX)))
     for stack in ('pydantic', 'docstring', 'docstring+pydantic', 'default'):
         for kind in KINDS:
@@ -383,6 +389,8 @@ def gen_cases(ctx):
 def run_case(case, rec):
     if case.get('set') == 'served':
         return run_served(case, rec)
+    if case.get('set') == 'threads':
+        return run_threads(case, rec)
     table = {'core': CORE, 'corex': COREX}.get(case['set'], FULL)
     atoms = [table[i] for i in case['atoms']]
     kind, stack, prefix = case['kind'], case['stack'], case['prefix']
@@ -645,6 +653,51 @@ def run_served(case, rec):
     return h
 
 
+def run_threads(case, rec):
+    """E5: two threads generate from ONE specification object at the same time (two concurrent GETs of the document on a threaded
+    server); a thread switch is possible at the entry of every schema() / _extract_* / helper method of the generator class; each thread's document must be the
+    document an undisturbed generation gives"""
+    import os
+    from mc.core import explore_choices
+    from mc.threadsched import run_threads as sched_run
+    gen_file = os.path.join(os.path.dirname(os.path.abspath(pjrpc.__file__)), 'server', 'specs', 'openapi.py' if case['kind'] != 'openrpc' else 'openrpc.py')
+    atoms = [COREX[i] for i in case['atoms']]
+    methods, users, names = build_methods(atoms)
+
+    def dump(d):
+        return json.dumps(d, sort_keys=True, cls=specs_mod.JSONEncoder)
+    want = dump(make_spec(case['kind'], 'pydantic').schema(path='/api', methods_map={'': methods}))
+    n = 0
+
+    def once(env):
+        spec = make_spec(case['kind'], 'pydantic')
+        outs = [None, None]
+
+        def body(i):
+            def f():
+                outs[i] = dump(spec.schema(path='/api', methods_map={'': methods}))
+            return f
+        res, tr = sched_run([body(0), body(1)], env, [gen_file], granularity='call', name_prefixes=('schema', '_extract', '_get', '_make', '_build'))
+        return outs, res, tr
+    for choices, (outs, res, tr) in explore_choices(once, budget=case['budget'], shard=tuple(case['shard']), max_exec=400000):
+        n += 1
+        rec.transitions += tr.points
+        for i in (0, 1):
+            if res[i][0] == 'exc':
+                rec.violation('C16:%s:threads:generation raised when two threads generate from one specification object' % case['kind'], dict(case, choices=list(choices)),
+                              expected='a document', observed='%s: %s' % (type(res[i][1]).__name__, res[i][1]))
+                break
+            if outs[i] != want:
+                rec.violation('C16:%s:threads:a document generated while another thread generates from the same specification object differs from the undisturbed one' % case['kind'],
+                              dict(case, choices=list(choices), thread=i), expected='the undisturbed document', observed='differs (%d vs %d characters)' % (len(outs[i] or ''), len(want)))
+                break
+    rec.traces += n
+    rec.states += n
+    rec.nontrivial_n += n
+    rec.counters['thread schedules'] += n
+    return n
+
+
 def second_stage(ctx):
     blobs = ctx.rec.blobs
     if not blobs:
@@ -711,7 +764,7 @@ def replay(doc):
     from mc.core import Ctx, Recorder, jdump
     rec = Recorder()
     c = doc['case']
-    case = {k: c[k] for k in ('set', 'atoms', 'stack', 'kind', 'prefix', 'variant', 'sequence', 'late_error', 'alias', 'integration', 'base', 'layout', 'first') if k in c}
+    case = {k: c[k] for k in ('set', 'atoms', 'stack', 'kind', 'prefix', 'variant', 'sequence', 'late_error', 'alias', 'integration', 'base', 'layout', 'first', 'budget', 'shard') if k in c}
     run_case(case, rec)
     ctx = Ctx('C16', 'quick', 0, 1)
     ctx.rec = rec
